@@ -1,5 +1,75 @@
-"""C06 - composite property checked by the system engine (see p_sys.py)."""
-from p_sys import run_prop
+"""C06 - composite property checked by the system engine (see p_sys.py), plus the process boundary: the REAL binary
+against a fake lightningd is sent htlc_accepted calls that are undecodable, odd or plain forwards; each must get exactly
+one JSON-RPC *result* whose "result" is continue / fail / resolve (src/plugin.rs glue, which the in-process engines bypass)."""
+import json, time, os
+from p_sys import run_prop, run_property, gen_for, BASE_RULE, COMMON_ASSUME
+from vlib import *
+
+def glue_requests():
+    import world as W
+    ok = W.request(W.payload(), W.phash(0), 1000, 1100, 100, 1, forward=1000, total=1000)          # a plain forward
+    reqs = [("plain forward", ok),
+            ("payload with a truncated TLV value (03 01 02 03)", dict(ok, onion=dict(ok["onion"], payload="03010203"))),
+            ("payload fd00 (truncated BigSize)", dict(ok, onion=dict(ok["onion"], payload="fd00"))),
+            ("payload is not hex", dict(ok, onion=dict(ok["onion"], payload="zz"))),
+            ("payload missing", dict(ok, onion={})),
+            ("onion missing", {"htlc": ok["htlc"]}),
+            ("htlc missing", {"onion": ok["onion"]}),
+            ("amount is a string", dict(ok, htlc=dict(ok["htlc"], amount_msat="lots"))),
+            ("negative amount", dict(ok, htlc=dict(ok["htlc"], amount_msat=-1))),
+            ("amount 2^64", dict(ok, htlc=dict(ok["htlc"], amount_msat=2**64))),
+            ("expiry 2^32", dict(ok, htlc=dict(ok["htlc"], cltv_expiry=2**32))),
+            ("payment hash too short", dict(ok, htlc=dict(ok["htlc"], payment_hash="00"))),
+            ("params is a list", [1, 2, 3]),
+            ("params empty", {}),
+            ("metadata that is not a TLV stream", W.request(W.payload(raw_meta=bytes([0xfd, 0x00])), W.phash(0), 1000, 1100, 100, 2, forward=1000, total=1000)),
+            ("metadata with an invoice that does not parse", W.request(W.payload(invoice="lnbc1notaninvoice"), W.phash(0), 1000, 1100, 100, 3, forward=1000, total=1000))]
+    return reqs
+
+def glue_check(o):
+    """Process boundary (src/plugin.rs::on_htlc_accepted): every call is answered once with a hook result."""
+    from e2e import build_repo_binary, FakeNode
+    from p_c19 import options_of, DEFAULT
+    ok, log, binary = build_repo_binary("dev")
+    if not ok:
+        o.corr_failures.append(("/repo does not build: " + log[-1500:], {"build_log": log[-3000:]})); return
+    okh, logh, hb = harness_build("dev")
+    if not okh:
+        o.corr_failures.append(("harness does not build: " + logh[-1500:], {})); return
+    inv = harness_run(hb, "classify", [json.dumps({"mkinv": {"pre": 1, "amount": 1000000, "signer": 1, "hints": [[0]]}})])
+    local_id = inv[0]["view"]["last_hops"][0]
+    n = FakeNode(binary, options_of(DEFAULT), local_id, os.path.join(CACHE, "e2e", "c06-glue"), height=1000, chunk=5)
+    seen = {}
+    try:
+        st = n.start(timeout=30)
+        if st != "started":
+            o.corr_failures.append(("the real binary did not start against the fake lightningd (%s)" % st, {})); return
+        reqs = glue_requests()
+        for i, (name, params) in enumerate(reqs):
+            n.hook("g%d" % i, params)
+        for i, (name, params) in enumerate(reqs):
+            r = n.wait_reply("g%d" % i, 15)
+            seen[name] = r
+            o.evaluations += 1
+            good = isinstance(r, dict) and isinstance(r.get("result"), dict) and r["result"].get("result") in ("continue", "fail", "resolve") and "error" not in r
+            if good:
+                o.nontrivial.add("glue:" + name)
+            else:
+                o.monitor_failures.append(("process boundary: htlc_accepted call (%s) was not answered with a hook result: got %s" % (name, json.dumps(r)[:300]),
+                                           {"engine": "e2e", "request_kind": name, "params": params, "reply": r}))
+        time.sleep(0.2)
+        with n.lock:
+            ids = [json.dumps(f.get("id")) for f in n.frames if isinstance(f, dict) and "id" in f and "method" not in f]
+        dup = sorted({x for x in ids if ids.count(x) > 1})
+        if dup:
+            o.monitor_failures.append(("process boundary: more than one reply was written for call ids %s" % dup, {"engine": "e2e", "ids": dup}))
+        if n.bad_frames:
+            o.monitor_failures.append(("process boundary: %d frames written by the plugin are not JSON" % n.bad_frames, {"engine": "e2e"}))
+    finally:
+        n.stop()
+    o.distribution["process_boundary_calls"] = {k: (v or {}).get("result", {}).get("result") if isinstance(v, dict) and isinstance(v.get("result"), dict) else "NO HOOK RESULT" for k, v in seen.items()}
 
 def run(tier, seed):
-    return run_prop("C06", tier, seed, profiles=("dev", "release"))
+    extra = ("Process boundary: the real binary (fake lightningd, stdin chunked in 5-byte writes) receives %d htlc_accepted calls that cannot be decoded, carry out-of-range "
+             "numbers, malformed metadata or are plain forwards; each must be answered exactly once with a hook result. " % len(glue_requests()))
+    return run_property("C06", tier, seed, gen_for("C06"), rule=BASE_RULE + extra, assumptions=COMMON_ASSUME, profiles=("dev", "release"), extra_check=glue_check)
